@@ -228,6 +228,19 @@ func checkC17(c *Ctx, r *Report) {
 				}
 			}
 		})
+		if readAll == nil {
+			// the bounded read and its size test moved into a helper that hands back (body, status, err): the same three
+			// obligations, split over the helper (read max+1; len>max → a return carrying 413 and an error; the body only
+			// handed back past the test) and the handler (the error branch answers with the helper's status through the
+			// translator's error writer; parsing and dispatch only on the no-error side)
+			if ok, pos, why := c.c17SizeGuardViaHelper(th); ok {
+				r.OK("C17-R3", key, pos, "LimitReader(max+1) + len>max→413 in the reading helper; its error branch dominates parsing and dispatch")
+				goto r3done
+			} else if why != "" {
+				r.Bad("C17-R3", key, pos, why)
+				goto r3done
+			}
+		}
 		switch {
 		case readAll == nil:
 			r.Bad("C17-R3", key, th.Pos(), "the Anthropic request body is not read through io.LimitReader")
@@ -240,6 +253,7 @@ func checkC17(c *Ctx, r *Report) {
 		default:
 			r.OK("C17-R3", key, guard.Pos(), "LimitReader(max+1) + len>max→413 dominate parsing and dispatch")
 		}
+	r3done:
 	}
 
 	// ---------- R4 ----------
@@ -320,4 +334,165 @@ func callsMaxBytes(c *Ctx, fn *ssa.Function) bool {
 		}
 	})
 	return found
+}
+
+// c17SizeGuardViaHelper decides C17-R3 when the bounded read lives in a helper of the handler. ok: all obligations met;
+// !ok with why=="": no such helper (the caller reports the plain miss); !ok with why: the helper exists and an obligation
+// fails.
+func (c *Ctx) c17SizeGuardViaHelper(th *ssa.Function) (bool, token.Pos, string) {
+	var hc *ssa.Call
+	var h *ssa.Function
+	var readAll *ssa.Call
+	plusOne := false
+	eachInstr(th, func(in ssa.Instruction) {
+		call, ok := in.(*ssa.Call)
+		if !ok || hc != nil {
+			return
+		}
+		f := call.Call.StaticCallee()
+		if f == nil || f.Blocks == nil || !c.inRepo(f) {
+			return
+		}
+		eachInstr(f, func(in2 ssa.Instruction) {
+			rc, ok := in2.(*ssa.Call)
+			if !ok || !isCall(in2, "io", "", "ReadAll") {
+				return
+			}
+			if lim, ok := rc.Call.Args[0].(*ssa.Call); ok && describeCall(&lim.Call).Name == "LimitReader" {
+				hc, h, readAll = call, f, rc
+				if bo, ok := lim.Call.Args[1].(*ssa.BinOp); ok && bo.Op == token.ADD {
+					if k, ok := constInt(bo.Y); ok && k == 1 {
+						plusOne = true
+					}
+				}
+			}
+		})
+	})
+	if hc == nil {
+		return false, th.Pos(), ""
+	}
+	if !plusOne {
+		return false, readAll.Pos(), "the body is read through LimitReader(max) rather than max+1: an oversized body is silently truncated at the limit instead of being detected"
+	}
+	res := h.Signature.Results()
+	bodyIdx, statusIdx, errIdx := -1, -1, -1
+	for i := 0; i < res.Len(); i++ {
+		switch t := res.At(i).Type().Underlying().(type) {
+		case *types.Slice:
+			bodyIdx = i
+		case *types.Basic:
+			if t.Info()&types.IsInteger != 0 {
+				statusIdx = i
+			}
+		case *types.Interface:
+			if res.At(i).Type().String() == "error" {
+				errIdx = i
+			}
+		}
+	}
+	if bodyIdx < 0 || statusIdx < 0 || errIdx < 0 {
+		return false, hc.Pos(), ""
+	}
+	// the helper: `len(body) > max` whose true side only returns (…, 413, non-nil error)
+	var guard *ssa.If
+	for _, b := range h.Blocks {
+		ifi, ok := lastInstr(b).(*ssa.If)
+		if !ok {
+			continue
+		}
+		bo, ok := ifi.Cond.(*ssa.BinOp)
+		if !ok || bo.Op != token.GTR {
+			continue
+		}
+		cv, ok := bo.X.(*ssa.Convert)
+		if !ok {
+			continue
+		}
+		lc, ok := cv.X.(*ssa.Call)
+		if !ok {
+			continue
+		}
+		if bi, ok := lc.Call.Value.(*ssa.Builtin); !ok || bi.Name() != "len" {
+			continue
+		}
+		if ret, ok := lastInstr(b.Succs[0]).(*ssa.Return); ok && len(ret.Results) == res.Len() {
+			if k, _ := constInt(ret.Results[statusIdx]); k == 413 && !isNilConst(ret.Results[errIdx]) {
+				guard = ifi
+			}
+		}
+	}
+	if guard == nil {
+		return false, readAll.Pos(), "no `len(body) > max → 413` test after the bounded read: an oversized (e.g. chunked) Anthropic request is not refused with 413"
+	}
+	for _, ret := range returnsOf(h) {
+		if len(ret.Results) != res.Len() || isNilConst(ret.Results[bodyIdx]) {
+			continue
+		}
+		past := false
+		for _, cf := range normFacts(condFacts(ret.Block())) {
+			if cf.If == guard && !cf.True {
+				past = true
+			}
+		}
+		if !past {
+			return false, ret.Pos(), "the reading helper can hand the body back without having passed the size test"
+		}
+	}
+	// the handler: the error branch answers with the helper's status; parse and dispatch sit on the no-error side
+	var errV, statusV ssa.Value
+	for _, ref := range *hc.Referrers() {
+		if ex, ok := ref.(*ssa.Extract); ok {
+			switch ex.Index {
+			case errIdx:
+				errV = ex
+			case statusIdx:
+				statusV = ex
+			}
+		}
+	}
+	if errV == nil || statusV == nil {
+		return false, hc.Pos(), "the handler drops the error or the status of the bounded read: an oversized Anthropic request is not refused with 413"
+	}
+	var errIf *ssa.If
+	for _, b := range th.Blocks {
+		ifi, ok := lastInstr(b).(*ssa.If)
+		if !ok {
+			continue
+		}
+		bo, ok := ifi.Cond.(*ssa.BinOp)
+		if !ok || bo.Op != token.NEQ || bo.X != errV || !isNilConst(bo.Y) {
+			continue
+		}
+		for _, in := range b.Succs[0].Instrs {
+			if cc := getCall(in); cc != nil && describeCall(cc).Name == "writeTranslatorError" && stripConv(cc.Args[len(cc.Args)-1]) == statusV {
+				errIf = ifi
+			}
+		}
+	}
+	if errIf == nil {
+		return false, hc.Pos(), "the error branch of the bounded read does not answer with the helper's status (413 for an oversized body) through the translator's error writer"
+	}
+	bad := token.NoPos
+	eachInstr(th, func(in ssa.Instruction) {
+		cc := getCall(in)
+		if cc == nil {
+			return
+		}
+		n := describeCall(cc).Name
+		if n == "ExtractModelName" || n == "TransformRequest" || n == "tryPassthrough" || n == "executeTranslationRequest" {
+			ok := false
+			for _, cf := range normFacts(condFacts(in.Block())) {
+				if cf.If == errIf && !cf.True {
+					ok = true
+				}
+			}
+			if !ok && bad == token.NoPos {
+				bad = in.Pos()
+			}
+		}
+	})
+	if bad != token.NoPos {
+		return false, bad, "parsing or dispatch can happen without having passed the size test"
+	}
+	return true, guard.Pos(), ""
 }
